@@ -73,6 +73,26 @@ fn main() {
     }
     sink.merge(struct_sweep(&run, &[&SCT], &scts, d, &sfx, 96, &extra));
     sink.merge(struct_sweep(&run, &[&SCT_LIST], &lists, d, &sfx, 96, &extra));
+    // the cross product of all entry fields (version x timestamp x extensions x hash x signature algorithm x size),
+    // as single entries and as the second entry of a list
+    {
+        let grid = cat::sct_grid(thorough);
+        sink.merge(struct_sweep(&run, &[&SCT], &grid, 0, &sfx, 16, &extra));
+        let lists: Vec<W> = grid
+            .iter()
+            .step_by(run.tier.pick(3, 1))
+            .map(|e| {
+                let mut w = W::new();
+                w.block(2, "list", |w| {
+                    cat::sct_entry(w, 0, 5, 0, 4, 3, 2);
+                    w.append(e);
+                    cat::sct_entry(w, 0, 6, 0, 4, 3, 2);
+                });
+                w
+            })
+            .collect();
+        sink.merge(struct_sweep(&run, &[&SCT_LIST], &lists, 0, &sfx, 16, &extra));
+    }
     sink.merge(struct_sweep(&run, &[&SCT], &wrapped(&cat::scts(false), 1), 0, &sfx, 16, &extra));
     sink.merge(struct_sweep(&run, &[&SCT_LIST], &wrapped(&cat::sct_lists(false), 1), 0, &sfx, 16, &extra));
     sink.merge(struct_sweep(&run, &[&SCT_LIST], &cat::sct_lists_many(), run.tier.pick(0, 1), &sfx, 32, &extra));
